@@ -73,7 +73,7 @@ def _determinism_record(cid):
 
 
 def load_known():
-    p = os.path.join(VERIF, "known_findings.json")
+    p = os.environ.get("DSIM_KNOWN_FINDINGS") or os.path.join(VERIF, "known_findings.json")
     if not os.path.exists(p):
         return []
     with open(p) as fh:
